@@ -392,7 +392,7 @@ def jobs(tier, seed):
         for W in range(7, 13):
             js.append(Job(f"bp_W{W}_m2_demands0to4", W**2 * 25, _cs_chunk, (W, 2, ("solve_bp",), 5), chunk=max(1, W**2 * 25 // 256), describe="solve_bp: two piece sizes, demands 0..4"))
     # wider rolls, larger demands: degenerate column-generation steps only show up here
-    for W in (14, 16, 18, 20):
+    for W in (14, 16, 18, 20) + ((23,) if tier == "thorough" else ()):
         size = W**3 * 27
         if tier == "thorough":
             js.append(Job(f"cg_W{W}_m3_demands135", size, _cs_sparse_chunk, (W, 0), describe="solve_cg: three sizes in 1..W, demands from {1,3,5}^3"))
